@@ -348,6 +348,45 @@ def build(run):
         return proved("exec+normaliser", vcs=n, sample=f"{n} (spelling, index tuple, field shape) cases: shape, free indices and value of the partial derivative")
     run.add("operator/dx-and-Dx-spellings", dx_spellings, kind="values")
 
+    # ---- which geometric quantities may be treated as constant on a cell: the Jacobian (and what derives from it) is constant exactly on AFFINE cells, i.e. on
+    # simplices with a degree-1 coordinate field; on quadrilaterals, hexahedra, prisms, pyramids and products of two or more cells the map is multilinear and the
+    # spatial derivative of detJ, J, K must not be folded to zero
+    def affine_cells_only():
+        from ufl import TensorProductCell as TP
+        import ufl.cell as UC
+        cells = {"interval": (ufl.interval, True), "triangle": (ufl.triangle, True), "tetrahedron": (ufl.tetrahedron, True), "quadrilateral": (ufl.quadrilateral, False),
+                 "hexahedron": (ufl.hexahedron, False), "prism": (UC.Cell("prism"), False), "pyramid": (UC.Cell("pyramid"), False),
+                 "TP(interval, interval)": (TP(ufl.interval, ufl.interval), False), "TP(triangle, interval)": (TP(ufl.triangle, ufl.interval), False),
+                 "TP(interval, interval, interval)": (TP(ufl.interval, ufl.interval, ufl.interval), False), "TP(triangle)": (TP(ufl.triangle), True), "TP(interval)": (TP(ufl.interval), True)}
+        n = 0
+        for cname, (cell_, affine) in cells.items():
+            gdim = cell_.topological_dimension
+            try:
+                msh_ = ufl.Mesh(E.LagrangeElement(cell_, 1, (gdim,)))
+            except Exception:  # noqa: BLE001
+                continue
+            n += 1
+            if bool(cell_.is_simplex) != affine:
+                return violated(f"{cname}.is_simplex is {cell_.is_simplex}; the cell is {'a' if affine else 'not a'} simplex", replay={"cell": cname}, reproduced=True, backend="exec")
+            for Q in (C.Jacobian, C.JacobianDeterminant, C.JacobianInverse):
+                q = Q(msh_)
+                n += 1
+                if bool(q.is_cellwise_constant()) != affine:
+                    return violated(f"{Q.__name__} on a degree-1 mesh of {cname} cells reports is_cellwise_constant() = {q.is_cellwise_constant()}; the cell map is "
+                                    f"{'affine' if affine else 'multilinear, not affine'}", replay={"cell": cname, "quantity": Q.__name__}, reproduced=True, backend="exec")
+                if not affine:
+                    comp = q if not q.ufl_shape else q[(0,) * len(q.ufl_shape)]
+                    try:
+                        r = apply_derivatives(apply_algebra_lowering(grad(comp)))
+                    except (ValueError, NotImplementedError):
+                        continue
+                    n += 1
+                    if isinstance(r, C.Zero):
+                        return violated(f"grad({Q.__name__}[0..]) on a degree-1 mesh of {cname} cells is folded to zero although the cell map is not affine",
+                                        replay={"cell": cname, "quantity": Q.__name__}, reproduced=True, backend="exec")
+        return proved("exec(finite)", vcs=n, sample=f"{n} (cell kind, quantity) facts: cellwise constant exactly on affine simplex cells; derivatives not folded to zero elsewhere")
+    run.add("geometry/jacobian-is-cellwise-constant-on-affine-cells-only", affine_cells_only, kind="values")
+
     def canary():
         e = grad(f * g_)
         r = apply_derivatives(e)
